@@ -43,6 +43,11 @@ type Namespace interface {
 
 func getPfxName(n Node, pfx string) (string, bool) {
 	for _, i := range n.ChildrenByType(NodeImport) {
+		if r := i.Root(); r != nil && r != n {
+			// An import merged in from an included submodule binds its
+			// prefix for the text of that submodule only.
+			continue
+		}
 		if i.Prefix() == pfx {
 			return i.Name(), true
 		}
